@@ -738,7 +738,7 @@ class Unit:
         if not aspects:
             text = attrs + sig + '\n' + contract.rstrip() + '\n' + fbody + '\n'
             self.functions.append({'name': name, 'out_name': out_name, 'file': rel, 'scope': scope,
-                                   'source_sha': sha, 'contract': contract.strip()})
+                                   'source_sha': sha, 'contract': contract.strip(), 'props': opts.get('props', '')})
             return '/*@BEGIN-FN %s*/\n%s/*@END-FN %s*/' % (out_name, text, out_name)
         # ---- aspects: the same signature, requires and body verified once per group of ensures clauses,
         # each copy in its own module (parallel, small queries).  Callers see the conjunction of the
@@ -757,7 +757,8 @@ class Unit:
             self.aspect_mods.append('mod asp_%s {\nuse super::*;\n%s%s {\n/*@BEGIN-FN %s*/\n%s/*@END-FN %s*/\n}\n}\n'
                                     % (aname, use_line, scope, aname, atext, aname))
             self.functions.append({'name': name, 'out_name': aname, 'file': rel, 'scope': scope,
-                                   'source_sha': sha, 'contract': (contract.strip() + '\n' + etext).strip(), 'aspect': a['name']})
+                                   'source_sha': sha, 'contract': (contract.strip() + '\n' + etext).strip(), 'aspect': a['name'],
+                                   'props': a['opts'].get('props', opts.get('props', ''))})
         union = contract.rstrip() + '\n    ensures\n        ' + ',\n        '.join(ens_all) + ',\n'
         self.conjunction_rule.append({'function': where, 'aspects': [a['name'] for a in aspects]})
         self.log.append({'rule': 'conjunction', 'where': where, 'aspects': [a['name'] for a in aspects]})
@@ -781,6 +782,7 @@ def build_unit(repo, vxdir, template, out_path):
         m = re.search(r'/\*@END-FN (\S+)\*/', line)
         if m and cur:
             cur['end'] = ln
+            cur['props'] = [x for x in next((f.get('props', '') for f in u.functions if f['out_name'] == cur['fn']), '').split(',') if x]
             fnmap.append(cur)
             cur = None
     if u.aspect_mods:
